@@ -668,7 +668,7 @@ impl<'a, K: HashKind> Case<'a, K> {
                 );
                 // is the store still usable? (a failed rollback must change nothing)
                 let poisoned = db.is_poisoned();
-                self.rep.t(format!("  poisoned={poisoned}"));
+                self.rep.t(format!("  poisoned={poisoned} {}", crate::sut::dir_summary(&self.sut.dir)));
                 self.sut.dead = true;
                 // does it reopen?
                 self.sut.db = None;
